@@ -1,7 +1,36 @@
-(* C09 -- placeholder until Proofs/C09.v lands. *)
-From Coq Require Import Reals.
-From GV Require Import Model.C09.
+(* C09 -- property theorems only (real-number model; the stdlib real-number axioms appear
+   in the assumptions and are listed in the evidence file). *)
+From Coq Require Import Reals List.
+From GV Require Import Model.C09 Proofs.C09.
 Open Scope R_scope.
+
+(* exp(-F / k_B T) recovers the probability on visited voxels ... *)
+Theorem C09_exp_recovers : forall kT p, 0 < kT -> 0 < p -> exp (- free_energy kT p / kT) = p.
+Proof. exact exp_recovers. Qed.
+Print Assumptions C09_exp_recovers.
+(* ... and these sum to one *)
+Theorem C09_probs_sum_one : forall (cs : list R), rsum cs <> 0 -> rsum (map (fun c => prob c (rsum cs)) cs) = 1.
+Proof. exact probs_sum_one. Qed.
+Print Assumptions C09_probs_sum_one.
+Theorem C09_exp_sums_to_one : forall kT cs, 0 < kT -> (forall c, In c cs -> 0 <= c) -> rsum cs <> 0 ->
+  rsum (map (fun c => if Req_EM_T c 0 then 0 else exp (- free_energy kT (prob c (rsum cs)) / kT)) cs) = 1.
+Proof. exact exp_sums_to_one. Qed.
+Print Assumptions C09_exp_sums_to_one.
+(* a denser voxel never has a higher free energy *)
+Theorem C09_monotone : forall kT p q, 0 < kT -> 0 < p -> p <= q -> free_energy kT q <= free_energy kT p.
+Proof. exact monotone. Qed.
+Print Assumptions C09_monotone.
+Theorem C09_nonneg : forall kT p, 0 < kT -> 0 < p -> p <= 1 -> 0 <= free_energy kT p.
+Proof. exact nonneg. Qed.
+Print Assumptions C09_nonneg.
+(* never-visited voxels get the finite value BIG and are excluded by any threshold <= 1e20 *)
 Theorem C09_unvisited_big : forall kT, free_energy kT 0 = BIG.
-Proof. intros. unfold free_energy. destruct (Req_EM_T 0 0); [reflexivity|contradiction]. Qed.
+Proof. exact unvisited_big. Qed.
 Print Assumptions C09_unvisited_big.
+Theorem C09_big_excluded : forall thr, thr <= 100000000000000000000 -> ~ admitted thr BIG.
+Proof. exact big_excluded. Qed.
+Print Assumptions C09_big_excluded.
+Theorem C09_visited_admitted : forall kT p thr, 0 < kT -> kT <= 1 ->
+  1 / 1000000000000000000000000000000 <= p -> p <= 1 -> 100 <= thr -> admitted thr (free_energy kT p).
+Proof. exact visited_admitted. Qed.
+Print Assumptions C09_visited_admitted.
